@@ -1111,6 +1111,17 @@ class PE:
             ga = self.src.find_method(o.cls, "__getattr__")
             if ga:
                 return self.apply(Bound(o, Closure(ga, ga.node, None, ga.module, ga.qname)), [attr], {})
+            # an attribute that __init__ / __post_init__ sets, missing on an object a check assembled by hand: every real object has
+            # it.  A literal initial value (an empty table, None, a number) is taken over; anything else means the hand-made object
+            # no longer matches the class - the analysis is out of date, which is not a property violation
+            init_val = self._initialiser_of(o.cls, attr)
+            if init_val is not None:
+                kind, val = init_val
+                if kind == "literal":
+                    o.attrs[attr] = self.eval(val, Env(o.cls.module))
+                    return o.attrs[attr]
+                raise PEError(f"a stand-in {o.cls.node.name} object lacks the attribute `{attr}` that the class's initialiser sets "
+                              f"(`{ast.unparse(val)[:60]}`): the check's model of the object is out of date")
             raise PERaise("AttributeError", f"{o.cls.node.name} object has no attribute {attr}")
         if isinstance(node, Func):
             clo = Closure(node, node.node, None, node.module, node.qname)
@@ -1123,6 +1134,25 @@ class PE:
                 return Bound(ClassRef(o.cls), clo)
             return Bound(o, clo)
         return self.eval(node, Env(owner.module))
+
+    def _initialiser_of(self, cls: Class, attr: str):
+        """('literal' | 'computed', value expression) if __init__ / __post_init__ of the class (or a base) assigns self.<attr>"""
+        for c in [cls] + list(self.src.class_bases(cls)):
+            for mname in ("__init__", "__post_init__"):
+                m = c.methods.get(mname)
+                if m is None:
+                    continue
+                for n in ast.walk(m.node):
+                    tgt = None
+                    if isinstance(n, ast.Assign) and len(n.targets) == 1:
+                        tgt, val = n.targets[0], n.value
+                    elif isinstance(n, ast.AnnAssign) and n.value is not None:
+                        tgt, val = n.target, n.value
+                    if isinstance(tgt, ast.Attribute) and isinstance(tgt.value, ast.Name) and tgt.value.id == "self" and tgt.attr == attr:
+                        lit = isinstance(val, ast.Constant) or (isinstance(val, (ast.Dict, ast.List, ast.Set, ast.Tuple)) and not ast.unparse(val).strip("{}[]() ,")) \
+                            or (isinstance(val, ast.Call) and isinstance(val.func, ast.Name) and val.func.id in ("dict", "list", "set") and not val.args and not val.keywords)
+                        return ("literal" if lit else "computed", val)
+        return None
 
     def all_fields(self, cls: Class):
         """dataclass fields in definition order, bases first."""
@@ -1268,17 +1298,38 @@ class PE:
         # memoising decorators keep their table for the life of the process: modelled per evaluator, keyed on the argument values
         if c.func is not None and not isinstance(c.node, ast.Lambda) and any(
                 d.split("(")[0].rsplit(".", 1)[-1] in ("lru_cache", "cache") for d in c.func.decorator_names()):
-            try:
-                key = (c.func.qname, repr([self._memo_key(a) for a in args]), repr(sorted((k, self._memo_key(v)) for k, v in kwargs.items())))
-            except Exception:
-                key = None
-            if key is not None:
-                memo = self.__dict__.setdefault("_memo_tables", {})
-                if key in memo:
-                    return memo[key]
-                memo[key] = r = self._call_closure(c, args, kwargs)
-                return r
+            table = self.__dict__.setdefault("_memo_tables", {}).setdefault(c.func.qname, [])
+            for a0, k0, r0 in table:
+                if len(a0) == len(args) and set(k0) == set(kwargs) and all(self._memo_same(x, y) for x, y in zip(a0, args)) \
+                        and all(self._memo_same(k0[n_], kwargs[n_]) for n_ in kwargs):
+                    return r0
+            r = self._call_closure(c, args, kwargs)
+            table.append((list(args), dict(kwargs), r))
+            return r
         return self._call_closure(c, args, kwargs)
+
+    def _memo_same(self, x, y):
+        """would the two values be the same dictionary key?  objects of repository classes: by the class's own __hash__ and __eq__"""
+        if isinstance(x, Obj) and isinstance(y, Obj):
+            if x is y:
+                return True
+            hx, ex = self.src.find_method(x.cls, "__hash__"), self.src.find_method(x.cls, "__eq__")
+            if ex is not None and hx is None and not self.all_fields(x.cls):
+                raise PERaise("TypeError", f"unhashable type: '{x.cls.node.name}'")
+            if hx is not None and ex is not None:
+                try:
+                    h1 = self.apply(Bound(x, Closure(hx, hx.node, None, hx.module, hx.qname)), [], {})
+                    h2 = self.apply(Bound(y, Closure(hx, hx.node, None, hx.module, hx.qname)), [], {})
+                    if not self.truth(self.compare(ast.Eq(), h1, h2)):
+                        return False
+                    return bool(self.truth(self.apply(Bound(x, Closure(ex, ex.node, None, ex.module, ex.qname)), [y], {})))
+                except Undecidable:
+                    return False
+            try:
+                return bool(self.truth(self.compare(ast.Eq(), x, y)))
+            except Exception:
+                return False
+        return self._memo_key(x) == self._memo_key(y)
 
     @staticmethod
     def _memo_key(v):
